@@ -17,7 +17,7 @@ func init() {
 		Run: ruleGuardErrors,
 	})
 	register(&Rule{
-		ID: "REVERT", Props: []string{"C03", "C09", "C04", "C07", "C08"}, Floor: 8,
+		ID: "REVERT", Props: []string{"C03", "C09", "C04", "C07", "C08", "C06"}, Default: []string{"C03", "C09", "C04", "C07", "C08"}, Floor: 8,
 		Doc: "path accounting in writeTxnState.modify/delete: on every path to an error return the revision counter is back at the value loaded before the increment, the primary index mutation is compensated and no other index was touched; every successful write increments the revision exactly once, the no-op delete not at all; the stored object carries the post-increment revision; the rejection test is an exact inequality on the guard revision",
 		Run: ruleRevert,
 	})
@@ -199,6 +199,51 @@ func ruleGuardErrors(c *Ctx, r *Reporter) {
 			}
 		}
 		r.check(bounded && okErr, c.fnName(fn)+"|table not part of the transaction", c.posStr(instrPos(e.(*ssa.UnOp))), "tablePos() < len(txn.tableEntries) is established before indexing; otherwise ErrTableNotLockedForWriting", "txn.tableEntries is indexed with the table's position without comparing it with the length: a write to a table registered after WriteTxn() panics (index out of range) instead of returning ErrTableNotLockedForWriting")
+	}
+	// DeleteAll reads the table (All) before the per-object deletes make their checks: it makes the
+	// same three checks itself first, so that a finished transaction, a table that is not part of the
+	// transaction and an empty table it does not hold are answered with the documented errors
+	if fn := c.Func("statedb", "genTable", "DeleteAll"); fn != nil {
+		var read ssa.Instruction
+		for _, ia := range allInstrs(fn) {
+			if call, ok := ia.In.(*ssa.Call); ok {
+				if sf := staticCallee(call); sf != nil && (sf.Name() == "All" || sf.Name() == "getTableEntry") && read == nil {
+					read = call
+				}
+				if call.Call.IsInvoke() && (call.Call.Method.Name() == "All" || call.Call.Method.Name() == "getTableEntry" || call.Call.Method.Name() == "root") && read == nil {
+					read = call
+				}
+			}
+		}
+		open, held, locked := false, false, false
+		if read != nil {
+			for _, f := range factsAt(read.Block()) {
+				cond, val := stripNot(f.Cond, f.Val)
+				if bo, ok := cond.(*ssa.BinOp); ok && isNilConst(bo.Y) && namedTypeName(bo.X.Type()) == "writeTxnState" {
+					if (bo.Op == token.NEQ && val) || (bo.Op == token.EQL && !val) {
+						open = true
+					}
+				}
+				if val && isHoldsTest(c, cond, 0) {
+					held = true
+				}
+				if _, ok := loadOfField(cond, "tableEntry", "locked"); ok && val {
+					locked = true
+				}
+			}
+		}
+		errs := map[string]bool{}
+		for _, ret := range returnsOf(fn) {
+			vals := retValues(ret) // results are spilled: the range-over-func body assigns them
+			errs[errGlobalOf(vals[len(vals)-1])] = true
+		}
+		pos := c.posStr(fn.Pos())
+		if read != nil {
+			pos = c.posStr(instrPos(read))
+		}
+		r.check(read != nil && open && held && locked && errs["ErrTransactionClosed"] && errs["ErrTableNotLockedForWriting"], "statedb.(genTable).DeleteAll|checks the transaction before reading through it", pos, "finished transaction, table not part of it and table not locked are rejected before All()", "DeleteAll reads the table through the transaction before checking it: a finished transaction panics (nil dereference) instead of ErrTransactionClosed, a table registered after WriteTxn() panics (index out of range), and an empty table the transaction does not hold returns nil instead of ErrTableNotLockedForWriting")
+	} else {
+		r.anchorMissing("statedb.(genTable).DeleteAll")
 	}
 	for _, name := range []string{"modify", "delete", "addDeleteTracker"} {
 		fn := c.Func("statedb", "writeTxnState", name)
@@ -623,6 +668,23 @@ func ruleRevert(c *Ctx, r *Reporter) {
 		}
 		if len(order) < 4 {
 			r.undecided(fnn+"|returns", c.posStr(fn.Pos()), fmt.Sprintf("expected at least 4 return sites, enumerated %d", len(order)))
+		}
+		// a rejected write leaves the index transaction untouched: mutate-then-revert restores the
+		// contents, but the radix transaction has marked the watch channels of the nodes involved
+		// and Commit closes them although table and revision are unchanged (a woken reader sees the
+		// revision of the snapshot its channel came from)
+		{
+			touched := ""
+			for _, pe := range ends {
+				errv := pe.ret.Results[len(pe.ret.Results)-1]
+				if isNilConst(errv) {
+					continue
+				}
+				if pe.st.primary > 0 {
+					touched = c.posStr(instrPos(pe.ret))
+				}
+			}
+			r.checkP([]string{"C06"}, touched == "", fnn+"|a rejected write does not touch the index", c.posStr(fn.Pos()), "no error return after a primary index mutation", "a rejected compare-and-* ("+touched+") has modified the primary index and reverted it: contents and revision are restored, but the reverted mutation has marked watch channels (the key's leaf, the nodes on its path, the index root) and Commit closes them - GetWatch/PrefixWatch/AllWatch waiters wake up and see an unchanged table revision")
 		}
 		// the stored object carries the post-increment revision
 		okRev := false
